@@ -73,6 +73,53 @@ ARMS = {"if": 1, "if-else": 2, "tc": 1, "tc-else": 2, "tc-nested-if": 2, "typing
         "if-else-doc": 1, "for-else-doc": 1, "while-else-doc": 1, "try-else-doc": 1, "try-except-doc": 1, "try-finally-doc": 1}
 
 
+# ---------------------------------------------------------------------------------------------------------------
+# "spelled" leaves: the same definitions written in valid but less usual ways (multi-line headers, PEP 695 type parameters, decorators that are calls
+# or span several lines, semicolons, line continuations, one-line compound statements, elif / except* / match arms, non-ASCII identifiers, tabs).
+# Every entry: (text, binds, scopes) with binds = (name, kind, first-line offset, last-line offset, extras); offsets are relative to the first line of the text,
+# known by construction.  extras: labels (decorator-derived), doc (text, off1, off2), cond, annotation, value, target (aliases), body (class members).
+SPELLED = [
+    ("def a[T](x: T) -> T: ...", [("a", "function", 0, 0, {})], "mc"),
+    ("async def a[T](): ...", [("a", "function", 0, 0, {"labels": {"async"}})], "mc"),
+    ('def a(\n    x=1,\n    *args,\n) -> int:\n    """Doc of a."""', [("a", "function", 0, 4, {"doc": ("Doc of a.", 4, 4)})], "mc"),
+    ("@some.decorator(1, k=2)\ndef a(): ...", [("a", "function", 0, 1, {})], "m"),
+    ("@some.decorator(\n    1,\n)\ndef a(): ...", [("a", "function", 0, 3, {})], "m"),
+    ("@functools.cache\n# a comment\n\ndef a(): ...", [("a", "function", 0, 3, {"labels": {"cached"}})], "m"),
+    ("@functools.lru_cache(maxsize=None)\ndef a(): ...", [("a", "function", 0, 1, {"labels": {"cached"}})], "m"),
+    ("@functools.lru_cache(\n    maxsize=None,\n)\n@staticmethod\ndef a(): ...", [("a", "function", 0, 4, {"labels": {"cached", "staticmethod"}})], "c"),
+    ("@functools.cached_property\ndef a(self): ...", [("a", "attribute", 0, 1, {"labels": {"cached", "property"}, "is_def": True})], "c"),
+    ("class a[T]:\n    b: T", [("a", "class", 0, 1, {"body": [("b", "attribute", 1, 1, {"annotation": "T", "value": None, "attr_labels": {"instance-attribute"}})]})], "mc"),
+    ("class a(\n    object,\n):\n    pass", [("a", "class", 0, 3, {})], "mc"),
+    ("@dataclasses.dataclass(frozen=True)\nclass a:\n    b: int = 0", [("a", "class", 0, 2, {"labels": {"dataclass"}, "body": [("b", "attribute", 2, 2, {"annotation": "int", "value": "0"})]})], "mc"),
+    ("class a: b = 1", [("a", "class", 0, 0, {"body": [("b", "attribute", 0, 0, {"value": "1"})]})], "mc"),
+    ('def a(): "Doc of a."', [("a", "function", 0, 0, {"doc": ("Doc of a.", 0, 0)})], "m"),
+    ("a = 1; b = 2", [("a", "attribute", 0, 0, {"value": "1"}), ("b", "attribute", 0, 0, {"value": "2"})], "mc"),
+    ("a = (\n    1\n)", [("a", "attribute", 0, 2, {"value": "1"})], "mc"),
+    ("a: int = \\\n    1", [("a", "attribute", 0, 1, {"value": "1", "annotation": "int"})], "mc"),
+    ("a = b = \\\n    1", [("a", "attribute", 0, 1, {"value": "1"}), ("b", "attribute", 0, 1, {"value": "1"})], "mc"),
+    ("a = lambda: 1", [("a", "attribute", 0, 0, {"value": "lambda: 1"})], "mc"),
+    ("if z: a = 1", [("a", "attribute", 0, 0, {"value": "1", "cond": "if"})], "mc"),
+    ("if z: a = 1\nelse: a = 2", [("a", "attribute", 0, 0, {"value": "1", "cond": "if"}), ("a", "attribute", 1, 1, {"value": "2", "cond": "if"})], "mc"),
+    ("if z:\n\ta = 1", [("a", "attribute", 1, 1, {"value": "1", "cond": "if"})], "mc"),
+    ("if z:\n    pass\nelif y:\n    a = 1\nelse:\n    a = 2", [("a", "attribute", 3, 3, {"value": "1", "cond": "if"}), ("a", "attribute", 5, 5, {"value": "2", "cond": "if"})], "mc"),
+    ("try:\n    a = 1\nexcept* ValueError:\n    a = 2", [("a", "attribute", 1, 1, {"value": "1"}), ("a", "attribute", 3, 3, {"value": "2", "cond": "except"})], "mc"),
+    ("match z:\n    case 1:\n        a = 1\n    case _:\n        def b(): ...", [("a", "attribute", 2, 2, {"value": "1"}), ("b", "function", 4, 4, {})], "m"),
+    ("from mm import (\n    x as a,\n    b,\n)", [("a", "alias", 0, 3, {"target": "mm.x"}), ("b", "alias", 0, 3, {"target": "mm.b"})], "mc"),
+    ("import x.y as a, n.x as b", [("a", "alias", 0, 0, {"target": "x.y"}), ("b", "alias", 0, 0, {"target": "n.x"})], "mc"),
+    ("from mm import x as a; from mm import y as b", [("a", "alias", 0, 0, {"target": "mm.x"}), ("b", "alias", 0, 0, {"target": "mm.y"})], "mc"),
+    ('a = 1\n\n# a comment\n"""Attribute doc of a."""', [("a", "attribute", 0, 0, {"value": "1", "doc": ("Attribute doc of a.", 3, 3)})], "mc"),
+    ("\u00f1 = 1", [("\u00f1", "attribute", 0, 0, {"value": "1"})], "mc"),
+    ("def \u00f1(): ...", [("\u00f1", "function", 0, 0, {})], "m"),
+    ('class \u00f1:\n    """Doc of class."""', [("\u00f1", "class", 0, 1, {"doc": ("Doc of class.", 1, 1)})], "mc"),
+    ("\ufb01 = 1", [("fi", "attribute", 0, 0, {"value": "1"})], "mc"),  # (the ligature is NFKC-normalised by the parser: CPython binds `fi`)
+    ("def a(): return 1; z = 2", [("a", "function", 0, 0, {})], "m"),
+    ("with z as y, y as z:\n    a = 1", [("a", "attribute", 1, 1, {"value": "1"})], "mc"),
+    ("for z in y: a = 1", [("a", "attribute", 0, 0, {"value": "1"})], "mc"),
+]
+SPELLED_NEIGHBOURS = [("assign", "a", "assign"), ("def", "a", "doc"), ("class", "a", "attr"), ("import", "a", "from m import n"), ("string",), ("assign", "b", "annassign")]
+SPELLED_BLOCKS = ["if", "tc", "try-except", "with"]
+
+
 def leaves(names=("a", "b"), full=True):
     out = []
     for n in names:
@@ -143,6 +190,27 @@ def all_cases(tier):
     for s1 in CLASS_LEVEL:
         for s2 in CLASS_LEVEL:
             yield ("C", (s1, s2))
+    # spelled leaves: alone, before and after an ordinary statement on the same name (both orders), as a class-level statement, inside block arms
+    for i, (_text, _binds, scopes) in enumerate(SPELLED):
+        sp = ("spelled", i)
+        if "m" in scopes:
+            yield ("M", (sp,))
+            for nb in SPELLED_NEIGHBOURS:
+                yield ("M", (sp, nb))
+                yield ("M", (nb, sp))
+            for kb in SPELLED_BLOCKS:
+                yield ("M", (("block", kb, ((sp,),) + ((("assign", "b", "assign"),),) * (ARMS[kb] - 1)),))
+                yield ("M", (("assign", "a", "annassign"), ("block", kb, ((sp,),) + ((("assign", "b", "assign"),),) * (ARMS[kb] - 1))))
+        if "c" in scopes:
+            yield ("C", (sp,))
+            for nb in SPELLED_NEIGHBOURS[:1] + SPELLED_NEIGHBOURS[4:]:
+                yield ("C", (sp, nb))
+                yield ("C", (nb, sp))
+    if tier == "thorough":
+        for i in range(len(SPELLED)):
+            for j in range(len(SPELLED)):
+                if "m" in SPELLED[i][2] and "m" in SPELLED[j][2]:
+                    yield ("M", (("spelled", i), ("spelled", j)))
     # visibility table: name shape x parent kind x __all__ declared/listed x imported
     for n in VIS_NAMES:
         for parent in ("module", "class"):
@@ -322,6 +390,34 @@ def render_stmt(r: R, s, ind, ctx, scope):
         names = [x for x in ("a", "b") if f'"{x}"' in text]
         if scope == "module":
             ev.append({"op": "all", "names": names, "aug": "+=" in text, "cond": ctx["cond"], "guard": ctx["guard"], "lineno": len(r.lines)})
+    elif k == "spelled":
+        text, binds, _scopes = SPELLED[s[1]]
+        first, _ = r.emit(text, ind)
+        own_block = text.startswith(("if ", "try:", "match ", "with ", "for "))  # the binding's syntactic parent is the statement's own clause, not the surrounding one
+
+        def mk(b, class_scope):
+            n, kind, o1, o2, x = b
+            e = {"op": "bind", "name": n, "kind": kind, "lineno": first + o1, "endlineno": first + o2, "cond": x.get("cond") if own_block else ctx["cond"], "guard": ctx["guard"], "doc": None}
+            if x.get("doc"):
+                e["doc"] = (x["doc"][0], first + x["doc"][1], first + x["doc"][2])
+            if kind == "alias":
+                e["labels"] = set()
+                e["target"] = x["target"]
+                e["cond"] = None
+            elif kind == "attribute" and not x.get("is_def"):
+                e["labels"] = x.get("attr_labels") or ({"class-attribute", "instance-attribute"} if class_scope else {"module-attribute"})
+                e["annotation"] = x.get("annotation")
+                e["value"] = x.get("value")
+            else:
+                e["labels"] = set(x.get("labels", ()))
+                e["src_first"] = first + o1
+                e["is_def"] = True
+                e["cond"] = None
+                if kind == "class":
+                    e["body"] = [mk(bb, True) for bb in x.get("body", [])]
+            return e
+
+        ev.extend(mk(b, scope == "class") for b in binds)
     elif k == "unsupported":
         r.emit(s[1], ind)
         ev.append({"op": "noise"})
@@ -423,6 +519,13 @@ def render_seq(r: R, stmts, ind, ctx, scope):
                     b["doc"] = evs[0]["string"]
         if st[0] in ("assign", "chain", "chain-mixed"):
             prev_binds = [e for e in evs if e.get("op") == "bind" and e["kind"] == "attribute" and not e.get("is_def")]
+        elif st[0] == "spelled":
+            text = SPELLED[st[1]][0]
+            last_line = max((e["endlineno"] for e in evs if e.get("op") == "bind"), default=0)
+            simple = not text.startswith(("if ", "try:", "match ", "with ", "for ", "class ", "def ", "async ", "@")) and '"""' not in text
+            prev_binds = [e for e in evs if e.get("op") == "bind" and e["kind"] == "attribute" and not e.get("is_def") and e["endlineno"] == last_line] if simple else None
+            if prev_binds and ";" in text:
+                prev_binds = prev_binds[-1:]  # `a = 1; b = 2` then a string: the string follows the second assignment
         elif st[0] == "all" and "+=" not in st[1]:
             prev_binds = [e for e in evs if e.get("op") == "all"]  # `__all__ = [...]` is an attribute assignment as well
         else:
@@ -607,6 +710,8 @@ def _stmt_kind(case):
             return f"{s[0]}:{s[2]}"
         if s[0] == "import":
             return "import"
+        if s[0] == "spelled":
+            return "spelled:" + SPELLED[s[1]][0].split("\n")[0][:24].replace(" ", "_")
         return s[0]
 
     return "+".join(nm(s) for s in case[1])
